@@ -122,6 +122,7 @@ func (cr *crashRec) snap(label string) {
 		return
 	}
 	cr.boundary++
+	progress.Add(1) // a crash image is harness work: a long transaction of many boundaries is not a hang
 	cr.r.Count("c05.boundary")
 	d := dirDigest(cr.n.Dir)
 	key := d
